@@ -2,7 +2,13 @@
    (harness subcommand c03wire, harness/overlay/cmd/verifharness/c03wire.go): the local heap, the symbol table node and
    the group B-tree node of internal/structures, writers AND readers, against Model/GroupWire.v.
    Classes: 0 = returned normally, 1 = returned an error, 2 = panicked (Base/Outcome.v oclass).  No proofs here. *)
+From Coq Require Import Uint63.
 From HV Require Import Base.Prelude Base.Outcome Base.Bytes Model.RobustAlloc Model.RobustGroup Model.GroupWire.
+
+(* transport of byte strings in the generated case files: length and 7-byte little-endian groups as primitive integer
+   literals (a hex string literal costs about twenty times as much to elaborate); as Model/ChunkTie.v unpack *)
+Definition upk (n : N) (l : list int) : bytes :=
+  firstn (N.to_nat n) (flat_map (fun i => le 7 (Z.to_N (Uint63.to_Z i))) l).
 
 (* model outcome against (class, value) observed on the implementation; the value only counts for class 0 *)
 Definition out_eqb {A} (eq : A -> A -> bool) (o : outcome A) (c : N) (a : A) : bool :=
